@@ -96,7 +96,7 @@ int main() {
   while (std::getline(std::cin, line)) {
     std::istringstream in(line); std::string kind; in >> kind;
     std::string res;
-    g_deadline_ms = now_ms() + 8000;
+    g_deadline_ms = now_ms() + 4000;
     try { res = kind == "CTL" ? run_case(in) : "bad-case"; } catch (const std::exception &e) { res = std::string("exception ") + e.what(); }
     g_deadline_ms = 0;
     std::cout << res << std::endl;
